@@ -104,6 +104,14 @@ Definition need_strict (q : bool) : Prop := q = false \/ t_arr_precheck TG = tru
 Lemma elem_ok_int_leaf : forall k v, elem_ok PW true (EPrim k) v = true -> int_leaf_ok (EPrim k) v = true.
 Proof. intros k v. destruct k, v; cbn [elem_ok int_leaf_ok int_in_range]; intros; try discriminate; auto. Qed.
 
+Lemma elem_ok_int_exact : forall k v, elem_ok PW true (EPrim k) v = true -> int_leaf_exact (EPrim k) v = true.
+Proof. intros k v. destruct k, v; cbn [elem_ok int_leaf_exact int_in_range]; intros; try discriminate; auto. Qed.
+
+Lemma leafval_pyatoms : forall l, forallb is_leafval l = true -> forallb is_pyatom l = true.
+Proof.
+  intros l H. rewrite forallb_forall in *. intros x Hx. specialize (H x Hx). destruct x; try discriminate; reflexivity.
+Qed.
+
 Lemma chkG_rt : forall (q : bool) k l, (q = false -> forallb (elem_ok PW true (EPrim k)) l = true) ->
   chkG q (EPrim k) l = Ok (PArr (dtype_of PW (EPrim k)) l).
 Proof.
@@ -122,12 +130,12 @@ Proof.
   { rewrite forallb_forall in *. intros x Hx. eapply elem_ok_leaf; eauto. }
   assert (int_src_ok TG (EPrim k) (PList l) = true) as ->.
   { unfold int_src_ok. destruct (t_arr_precheck TG) eqn:P; [|reflexivity]. cbn [negb orb].
-    destruct (np_flat_leaves l Hleaf) as [sh ->]. cbn [snd]. specialize (Hs (or_intror P)). apply orb_true_iff. right.
-    rewrite forallb_forall in *. intros x Hx. apply elem_ok_int_leaf. auto. }
-  unfold np_array. rewrite forallb_forall in Ho.
-  destruct (np_flat_leaves l) as [sh ->].
-  { apply forallb_forall. intros x Hx. eapply elem_ok_leaf; eauto. }
-  cbn [bind snd]. rewrite mapM_id by (intros x Hx; apply conv_leaf_id; auto).
+    destruct (np_flat_leaves l Hleaf) as [sh E]. specialize (Hs (or_intror P)).
+    destruct (t_src_exact TG); rewrite E; cbn [snd].
+    - rewrite forallb_forall in *. intros x Hx. apply elem_ok_int_exact. auto.
+    - apply orb_true_iff. right. rewrite forallb_forall in *. intros x Hx. apply elem_ok_int_leaf. auto. }
+  rewrite np_array_pylist by (apply leafval_pyatoms; exact Hleaf). rewrite forallb_forall in Ho.
+  rewrite mapM_id by (intros x Hx; apply conv_leaf_id; auto).
   cbn [bind]. rewrite Hl, float_src_ok_other by (destruct k; cbn [float_arr_ok] in Hk; auto).
   apply chkG_rt. intros Hq. apply Hs. left; exact Hq.
 Qed.
